@@ -1863,7 +1863,7 @@ def class_cases(jobs):
             if H["root"] == "base":
                 bases.append("OvldBase")
             head = f"class H{k}({', '.join(bases + (['metaclass=OvldMC'] if H['root'] == 'meta' else []))}):"
-            lines = [head, f"    hid = {k}"]
+            lines = [head, f"    hid = {k}", f"    __tag = {k}"]
             for d in H["body"]:
                 bodies[d["id"]] = d
                 ann = "object" if d["t"] == 1 else f"K{d['t']}"
@@ -1871,6 +1871,7 @@ def class_cases(jobs):
                     lines.append("    @extend_super")
                 pn = d.get("pn", "x")
                 lines.append(f"    def f(self, {pn}: {ann}):")
+                lines.append("        _t = self.__tag        # a private name of the defining class")
                 lines.append(f"        _e = [{d['id']!r}, {pn}, None, self]")
                 lines.append("        LOG.append(_e)")
                 if d["body"] == "next":
